@@ -64,12 +64,12 @@ def rests(draw, sigs=True):
             'sigs': draw(rest_sig_lists) if sigs else []}
 
 
-def constrain_cell(ns):
+def constrain_cell(ns, rule_iv=True):
     """Construction rules (i), (ii), (iv) of DESIGN.md 3.1, applied to all notes of one cell (note or chord)."""
     anyacc = any(n['acc'] for n in ns)
     allsigs = [s for n in ns for s in n['sigs']]
     dropw = 'W' in allsigs and 'w' in allsigs
-    hasrest = len(ns) > 1 and any(n['p'] == 'r' for n in ns)
+    hasrest = rule_iv and len(ns) > 1 and any(n['p'] == 'r' for n in ns)
     for n in ns:
         n['sigs'] = [s for s in n['sigs']
                      if not (anyacc and s in ACC_SUFFIX_SIGS) and not (dropw and s == 'w')
@@ -121,7 +121,7 @@ def note_cell_from(ns, layouts_):
 
 
 @st.composite
-def kern_data_cells(draw, chords=True, acc=True, sigs=True, grace=True, rest_in_chord=True, null_weight=2):
+def kern_data_cells(draw, chords=True, acc=True, sigs=True, grace=True, rest_in_chord=True, null_weight=2, rule_iv=True):
     x = draw(st.integers(0, 11))
     if x < null_weight:
         return null_cell()
@@ -137,7 +137,7 @@ def kern_data_cells(draw, chords=True, acc=True, sigs=True, grace=True, rest_in_
                 ns.append(draw(rests(sigs=sigs)))
             else:
                 ns.append(draw(notes(acc=acc, sigs=sigs, grace=grace, optional_dur=False)))
-    constrain_cell(ns)
+    constrain_cell(ns, rule_iv=rule_iv)
     lays = [draw(layouts(n)) for n in ns]
     return note_cell_from(ns, lays)
 
